@@ -564,9 +564,26 @@ def rule_puller(model):
                   'unbounded iterator)', node=gi.node, ctx=gi)
     # nobody else calls next() on anything derived from the wrapper
     ens = model.func('DT_Util', 'sequence_ensure_subscription')
-    src = ast.unparse(ens.node)
     r.instance(ens.where, ens.node.body[-1], 'lazy wrap')
-    if 'SequenceFromIter(iter(' not in src:
+    obj = ens.params()[0]
+
+    def lazy_iter(e, depth=0):
+        # iter(obj), possibly through a local
+        if isinstance(e, ast.Call) and isinstance(e.func, ast.Name) and \
+                e.func.id == 'iter' and len(e.args) == 1 and \
+                norm(e.args[0]) == obj:
+            return True
+        if isinstance(e, ast.Name) and depth < 2:
+            ds = model.local_defs(ens, e.id)
+            return bool(ds) and all(isinstance(d, ast.AST) and
+                                    lazy_iter(d, depth + 1) for d in ds)
+        return False
+    wrapped = any(
+        isinstance(c, ast.Call) and any(
+            x.endswith(':SequenceFromIter')
+            for x in model.callee_names(c, ens)) and len(c.args) == 1 and
+        lazy_iter(c.args[0]) for c in own_nodes(ens.node))
+    if not wrapped:
         r.finding(ens.where, ens.node.body[-1], 'non-subscriptable '
                   'iterables are not wrapped lazily', node=ens.node,
                   ctx=ens)
